@@ -468,9 +468,9 @@ class Discovery (EventMixin):
 
   def _delete_links (self, links):
     for link in links:
-      self.raiseEventNoErrors(LinkEvent, False, link)
-    for link in links:
       self.adjacency.pop(link, None)
+    for link in links:
+      self.raiseEventNoErrors(LinkEvent, False, link)
 
   def is_edge_port (self, dpid, port):
     """
